@@ -303,7 +303,7 @@ template<class T,bool ASSIGN,bool SELF=false> static inline void prod_mm(const I
 			with_qual(QI(in),[&](auto qq){ constexpr glm::qualifier Q=decltype(qq)::Q;
 				if constexpr(ASSIGN && !(K_==R_&&C_==K_)){ return; }
 				else { glm::mat<K_,R_,T,Q> A=ldm<K_,R_,T,Q>(in.a); glm::mat<C_,K_,T,Q> B=ldm<C_,K_,T,Q>(in.b);
-					if constexpr(ASSIGN && SELF){ glm::mat<K_,R_,T,Q>& ret=(A*=A); stm(A,got); ret_ok=(&ret==&A); (void)B; } else if constexpr(ASSIGN){ glm::mat<K_,R_,T,Q>& ret=(A*=B); stm(A,got); ret_ok=(&ret==&A); } else { glm::mat<C_,R_,T,Q> P=A*B; stm(P,got); } }
+					if constexpr(ASSIGN && SELF){ auto&& ret=(A*=A); stm(A,got); ret_ok=(&ret==&A); (void)B; } else if constexpr(ASSIGN){ auto&& ret=(A*=B); stm(A,got); ret_ok=(&ret==&A); } else { glm::mat<C_,R_,T,Q> P=A*B; stm(P,got); } }
 			}); }); });
 	bool small=all_small(in.a,K*R)&&all_small(in.b,C*K); W<T> w[16];
 	for(int cc=0;cc<C;cc++) for(int r=0;r<R;r++){ Elem<T> e; for(int k=0;k<K;k++) e.mul(in.a[k*R+r],in.b[cc*K+k]); w[cc*R+r]=e.fin_(small); }
@@ -484,19 +484,19 @@ EW_OP(add_sm, if constexpr(has_add<T,MT>::value){ stm(MT(s+A),got); } else prese
 EW_OP(sub_sm, if constexpr(has_sub<T,MT>::value){ stm(MT(s-A),got); } else present=false;, w[i]=ew<T>('-',s,in.a[i]);)
 EW_OP(mul_sm, if constexpr(has_mul<T,MT>::value){ stm(MT(s*A),got); } else present=false;, w[i]=ew<T>('*',s,in.a[i]);)
 EW_OP(div_sm, if constexpr(has_div<T,MT>::value){ stm(MT(s/A),got); } else present=false;, w[i]=ew<T>('/',s,in.a[i]); relax_lowp(w[i],QI(in));)
-EW_OP(addassign_mm, MT& ret=(A+=B); stm(A,got); ret_ok=(&ret==&A);, w[i]=ew<T>('+',in.a[i],in.b[i]);)
-EW_OP(subassign_mm, MT& ret=(A-=B); stm(A,got); ret_ok=(&ret==&A);, w[i]=ew<T>('-',in.a[i],in.b[i]);)
-EW_OP(addassign_s, MT& ret=(A+=s); stm(A,got); ret_ok=(&ret==&A);, w[i]=ew<T>('+',in.a[i],s);)
-EW_OP(subassign_s, MT& ret=(A-=s); stm(A,got); ret_ok=(&ret==&A);, w[i]=ew<T>('-',in.a[i],s);)
-EW_OP(mulassign_s, MT& ret=(A*=s); stm(A,got); ret_ok=(&ret==&A);, w[i]=ew<T>('*',in.a[i],s);)
-EW_OP(divassign_s, MT& ret=(A/=s); stm(A,got); ret_ok=(&ret==&A);, w[i]=ew<T>('/',in.a[i],s); relax_lowp(w[i],QI(in));)
+EW_OP(addassign_mm, auto&& ret=(A+=B); stm(A,got); ret_ok=(&ret==&A);, w[i]=ew<T>('+',in.a[i],in.b[i]);)
+EW_OP(subassign_mm, auto&& ret=(A-=B); stm(A,got); ret_ok=(&ret==&A);, w[i]=ew<T>('-',in.a[i],in.b[i]);)
+EW_OP(addassign_s, auto&& ret=(A+=s); stm(A,got); ret_ok=(&ret==&A);, w[i]=ew<T>('+',in.a[i],s);)
+EW_OP(subassign_s, auto&& ret=(A-=s); stm(A,got); ret_ok=(&ret==&A);, w[i]=ew<T>('-',in.a[i],s);)
+EW_OP(mulassign_s, auto&& ret=(A*=s); stm(A,got); ret_ok=(&ret==&A);, w[i]=ew<T>('*',in.a[i],s);)
+EW_OP(divassign_s, auto&& ret=(A/=s); stm(A,got); ret_ok=(&ret==&A);, w[i]=ew<T>('/',in.a[i],s); relax_lowp(w[i],QI(in));)
 // unary minus / plus (variant by index field): (-m)[c][r] = -m[c][r] as a value; +m = m
 EW_OP(negate, if(var) stm(MT(+A),got); else stm(MT(-A),got);,
 	nm= var? "unary-plus":"unary-minus"; if(var) w[i]=w_bits<T>(in.a[i]); else { if constexpr(is_fp<T>) w[i]=w_value<T>((T)-in.a[i]); else w[i]=ew<T>('-',(T)0,in.a[i]); })
 // ++m / m++ and --m / m-- : every element +-1; the postfix forms return the old value
-EW_OP(increment, if(var){ MT old=A++; T o[16]; stm(old,o); stm(A,got); for(int i=0;i<C_*R_;i++) if(!same(o[i],in.a[i])) old_ok=false; } else { MT& ret=++A; stm(A,got); ret_ok=(&ret==&A); },
+EW_OP(increment, if(var){ MT old=A++; T o[16]; stm(old,o); stm(A,got); for(int i=0;i<C_*R_;i++) if(!same(o[i],in.a[i])) old_ok=false; } else { auto&& ret=++A; stm(A,got); ret_ok=(&ret==&A); },
 	nm= var? "post-increment":"pre-increment"; w[i]=ew<T>('+',in.a[i],(T)1);)
-EW_OP(decrement, if(var){ MT old=A--; T o[16]; stm(old,o); stm(A,got); for(int i=0;i<C_*R_;i++) if(!same(o[i],in.a[i])) old_ok=false; } else { MT& ret=--A; stm(A,got); ret_ok=(&ret==&A); },
+EW_OP(decrement, if(var){ MT old=A--; T o[16]; stm(old,o); stm(A,got); for(int i=0;i<C_*R_;i++) if(!same(o[i],in.a[i])) old_ok=false; } else { auto&& ret=--A; stm(A,got); ret_ok=(&ret==&A); },
 	nm= var? "post-decrement":"pre-decrement"; w[i]=ew<T>('-',in.a[i],(T)1);)
 // == / != : equal iff every pair of elements compares equal
 template<class T> static void chk_equal(const In<T>& in,vf::Ctx& c){
